@@ -1,5 +1,6 @@
 import DesperModel.Disp
 import DesperModel.World
+import DesperModel.Spatial
 import DesperModel.Coro
 import DesperModel.Tree
 import DesperModel.Loop
@@ -22,6 +23,7 @@ def runModel (model : String) (lines : List String) : List String :=
   match model with
   | "disp"   => Disp.runScenario lines
   | "world"  => World.runScenario lines
+  | "spatial" => Spatial.runScenario lines
   | "coro"   => Coro.runScenario lines
   | "tree"   => Tree.runScenario lines
   | "loop"   => Loop.runScenario lines
